@@ -65,7 +65,37 @@ def battery():
             parts += [h(k.encode()), kind, pl]
         lines.append("build " + " ".join(parts))
         meta.append("build")
+    # toml::Table used as a map: insert / remove histories (removal must keep the documented order)
+    mk = ["zulu", "bravo", "mike", "alpha", "tango", "echo", "kilo", "yankee"]
+    for _ in range(300):
+        ops = []
+        present = []
+        for _ in range(rng.randrange(3, 14)):
+            if present and rng.random() < 0.35:
+                k = rng.choice(present + mk[:2])
+                ops.append(f"rem {k}")
+            else:
+                k = rng.choice(mk)
+                ops.append(f"ins {k} {rng.randrange(100)}")
+            present = list(dict.fromkeys(present + [k]))
+        lines.append("map " + ";".join(ops))
+        meta.append("map")
     return lines, meta
+
+
+def map_reference(line, insertion):
+    """plain reference ordered map: dict in insertion order (python dicts keep position on re-insert and close the gap on delete)"""
+    d = {}
+    rets = []
+    for op in line[4:].split(";"):
+        q = op.split(" ")
+        if q[0] == "ins":
+            rets.append(f"v{d[q[1]]}" if q[1] in d else "none")
+            d[q[1]] = int(q[2])
+        else:
+            rets.append(f"v{d.pop(q[1])}" if q[1] in d else "none")
+    items = list(d.items()) if insertion else sorted(d.items())
+    return "map rets=" + ",".join(rets) + " iter=" + ",".join(f"{k}={v}" for k, v in items)
 
 
 def fields(o):
@@ -117,6 +147,10 @@ def run(ctx):
             fx = fields(x)
             if x == "PANIC":
                 bad = "panic"
+            elif ln.startswith("map"):
+                want = map_reference(ln, "preserve_order" in feats)
+                if x != want:
+                    bad = f"toml::Table as a map: got `{x}`, a reference ordered map ({'insertion' if 'preserve_order' in feats else 'sorted'} order) gives `{want}`"
             elif ln.startswith("doc"):
                 if "parse" not in feats:
                     continue
